@@ -498,6 +498,12 @@ func (g *Gen) idx(n int) int {
 		return n + g.R.Intn(3)
 	case g.R.Chance(0.02):
 		return -1 - g.R.Intn(2)
+	case g.R.Chance(0.04):
+		// an Int that does not fit in 64 bits
+		if g.R.Chance(0.3) {
+			return -hugeIdx - g.R.Intn(3)
+		}
+		return hugeIdx + g.R.Intn(4)
 	case n == 0:
 		return 0
 	}
@@ -619,6 +625,9 @@ func (g *Gen) containerOp() Op {
 			case "dinsert", "dset":
 				s.V = g.valOf(et, 1)
 			}
+		}
+		if s.I >= hugeIdx || s.I <= -hugeIdx || s.J >= hugeIdx || s.J <= -hugeIdx {
+			edge = true
 		}
 		o.Sub = append(o.Sub, s)
 		// advance the scratch copy (ignore failures: the real model decides)
